@@ -4,7 +4,7 @@
    rfc_decode / rfc_repr / rfc_int / rfc_string / rfc_huff_decode are the RFC 7541 reference (specification). *)
 From Coq Require Import List ZArith Bool.
 From Bfe Require Import lib.Val lib.Bytes gen.HpackTables model.Huffman model.Hpack run.RunC31
-  proofs.HuffmanProofs proofs.HuffmanTrieProofs proofs.HpackProofs proofs.HpackRfcProofs proofs.HpackIncrProofs proofs.HpackC31Proofs.
+  proofs.HuffmanProofs proofs.HuffmanTrieProofs proofs.HuffmanEquivProofs proofs.HpackProofs proofs.HpackRfcProofs proofs.HpackIncrProofs proofs.HpackC31Proofs.
 Import ListNotations.
 Open Scope Z_scope.
 
@@ -47,6 +47,8 @@ Print Assumptions C31_decoder_refines_rfc.
 
 (* CENTRAL THEOREM: on every well-formed wire input the model's output satisfies the executable property that the
    harness evaluates on the implementation's observation (no finding class: kf_C31 = 0 everywhere).
+   wf_C31: table size >= 0, bytes in range, default string-length limit (SetMaxStringLength not called; inputs with
+   a limit are generated and checked against the model and the property but are outside this theorem).
    run_C31 uses the bit-level Huffman decoder; agree_C31 additionally requires the byte-trie transcription
    (huff_decode) to give the same observation - see C31_trie_step_agrees and level_note. *)
 Theorem C31_central : forall i, wf_C31 i = true -> kf_C31 i = 0 -> prop_C31 i (run_C31 i) = true.
@@ -58,6 +60,25 @@ Example C31_central_nonvacuous :
                                    VL [VB [120]; VB [48]; VZ 0]]; VZ 0; VZ 34; VZ 64; VZ 1].
 Proof. exact ex_input31_ok. Qed.
 
+(* The byte-trie Huffman decoder (transcription of addDecoderNode + the fixed huffmanDecode with cur/cbits/sbits)
+   returns, for EVERY byte string, exactly what the RFC bit-level decoder returns - a string or an error, never
+   a panic (nil node) and never fuel exhaustion.  So everything above also holds with the trie decoder. *)
+Theorem C31_trie_equals_bitlevel : forall v, wf_bytes v = true -> huff_decode v = huff_decode_spec v.
+Proof. exact huff_decode_eq_spec. Qed.
+Print Assumptions C31_trie_equals_bitlevel.
+Theorem C31_decoder_refines_rfc_trie : forall mx chunks, 0 <= mx -> forallb wf_bytes chunks = true ->
+  let '(d, fs, st) := dec_run huff_decode (new_decoder mx) chunks [] in
+  st <> ST_PANIC /\
+  match rfc_decode mx (concat chunks) with
+  | Some (t, want) => st = 0 /\ fs = want /\ trel (ddt d) t
+  | None => st <> 0
+  end.
+Proof. exact decoder_refines_rfc_trie. Qed.
+Print Assumptions C31_decoder_refines_rfc_trie.
+Theorem C31_run_trie_eq : forall i, wf_C31 i = true -> run_C31_trie i = run_C31 i.
+Proof. exact run_C31_trie_eq. Qed.
+Print Assumptions C31_run_trie_eq.
+
 (* The 256-ary trie built by the transcription of addDecoderNode agrees with the bit-level code on every
    (internal node, next byte) pair - 15 x 256 cases - and on 1280 encoded strings covering every symbol. *)
 Theorem C31_trie_step_agrees : trie_step_agrees = true /\ trie_symbols_agree = true.
@@ -68,7 +89,7 @@ Print Assumptions C31_trie_step_agrees.
    error in the trie model and in the reference; a valid block (":method: GET", then a literal with incremental
    indexing using a Huffman value with 3 bits of padding) is accepted with two fields. *)
 Example C31_witness_rejected :
-  run_C31_trie (VL [VZ 4096; VL [VB [0;0;133;0;127;255;255;255]]]) = VL [VL []; VZ 4; VZ 0; VZ 4096; VZ 0]
+  run_C31_trie (VL [VZ 4096; VZ 0; VL [VB [0;0;133;0;127;255;255;255]]]) = VL [VL []; VZ 4; VZ 0; VZ 4096; VZ 0]
   /\ rfc_decode 4096 [0;0;133;0;127;255;255;255] = None.
 Proof. exact (conj eq_refl eq_refl). Qed.
 Example C31_valid_accepted :
